@@ -6,7 +6,7 @@ from .. import query as Q
 from .common import S
 
 EXPLANATION = (
-    "Proof over the MIR model: from each of the 15 receiving entry points the resolved call graph is followed through "
+    "Proof over the MIR model: from each of the 16 receiving entry points the resolved call graph is followed through "
     "every workspace body (closures included) and every potential failure site is inventoried: MIR Assert terminators "
     "(overflow, bounds, division), diverging calls (panic_fmt, begin_panic, unwrap_failed ...), calls of partial "
     "external functions with their precondition (slice indexing by any range kind, copy_from_slice, unwrap / expect "
@@ -18,7 +18,7 @@ EXPLANATION = (
     "must be infeasible by Fourier-Motzkin elimination over linear forms of lengths, decoded headers and loop "
     "elements (with integer type ranges), or one of two named structural rules must apply (IDIOM-NEQ for the "
     "inverted difference behind a `!=` filter, INV-UNIFORM for the equal-length invariant of the interpolation "
-    "vector, checked at its single write site).  obligations == discharged is required.  NOT decided: termination "
+    "vector, checked at its single write site).  obligations == discharged is required; a site listed in KNOWN_FINDINGS.txt (currently one: Client::unblind) is a recorded violation and is reported separately, not counted as an obligation.  NOT decided: termination "
     "and time, stack depth, allocation failure, panics inside external crates beyond their modelled preconditions, "
     "drop glue.")
 ASSUMPTIONS = [
@@ -46,11 +46,15 @@ ENTRIES = [
     ("ppoprf::ppoprf::ProofDLEQ::load_from_bincode", {"data"}, "A"),
     ("ppoprf::ppoprf::Server::eval", {"p"}, "A"),
     ("ppoprf::ppoprf::Client::verify", {"public_key", "input", "eval"}, "A"),
+    # the evaluated point returned by the randomness server (the example client unblinds it without verifying)
+    ("ppoprf::ppoprf::Client::unblind", {"p"}, "A"),
     ("star_wasm::group_shares", {"serialized_shares", "epoch"}, "A"),
 ]
 
 
 def run_entries(ctx, rule, entries, usize_bits=64, tag=""):
+    from ..check import load_known
+    known = load_known()
     total = dis = 0
     out_scope = []
     samples = []
@@ -63,8 +67,12 @@ def run_entries(ctx, rule, entries, usize_bits=64, tag=""):
                 out_scope.append("%s [depends on %s]" % (o.key, sorted(o.scope_deps)[:3]))
                 continue
             n_in += 1
-            total += 1
             ok = panic.discharge(eng, o, usize_bits)
+            if not ok and (ctx.pid, "%s/%s%s" % (rule, o.key, tag)) in known:
+                # a site listed in KNOWN_FINDINGS.txt is a recorded violation, not an obligation claimed to hold
+                ctx.extra.setdefault("known_violated_sites", []).append(o.key + tag)
+            else:
+                total += 1
             if ok:
                 dis += 1
                 if len(samples) < 30 and o.kind != "pre:len_eq":
@@ -179,7 +187,7 @@ def clippy_crossref(ctx, rule):
 
 def run(ctx):
     total, dis = run_entries(ctx, "C09.P", ENTRIES, 64)
-    ctx.floor("C09.P.ENTRY", 15)
+    ctx.floor("C09.P.ENTRY", 16)
     ctx.floor("C09.P", 60)
     if ctx.tier == "thorough":
         run_entries(ctx, "C09.P32", ENTRIES, 32, tag="@usize32")
@@ -187,6 +195,7 @@ def run(ctx):
                ("ppoprf::ppoprf::ProofDLEQ::load_from_bincode", {"data"}, "B"),
                ("ppoprf::ppoprf::Server::eval", {"p"}, "B"),
                ("ppoprf::ppoprf::Client::verify", {"public_key", "input", "eval"}, "B"),
+               ("ppoprf::ppoprf::Client::unblind", {"p"}, "B"),
                ("star_sharks::<share_ff::Share as std::convert::TryFrom<&[u8]>>::try_from", {"s"}, "C"),
                ("star_sharks::Sharks::recover", {"shares"}, "C")]
         run_entries(ctx, "C09.PB", ext, 64, tag="@cfgBC")
